@@ -223,6 +223,33 @@ const _: () = {
     }
 };
 
+/// Spells the provided field type so that it keeps its meaning behind a reference: a trait object
+/// in it whose lifetime is left to its default (`dyn Trait`, also inside `*const dyn Trait` or a
+/// tuple) would otherwise take the reference's lifetime instead of the one it has in the field.
+#[cfg(any(
+    feature = "as_ref",
+    feature = "into",
+    feature = "into_iterator",
+    feature = "try_into",
+    feature = "try_unwrap",
+    feature = "unwrap",
+))]
+pub(crate) fn behind_reference(ty: &impl ToTokens) -> TokenStream {
+    fn names_trait_object(tokens: TokenStream) -> bool {
+        tokens.into_iter().any(|tt| match tt {
+            proc_macro2::TokenTree::Ident(i) => i == "dyn",
+            proc_macro2::TokenTree::Group(g) => names_trait_object(g.stream()),
+            _ => false,
+        })
+    }
+
+    if names_trait_object(ty.to_token_stream()) {
+        quote! { derive_more::__private::Same<#ty> }
+    } else {
+        ty.to_token_stream()
+    }
+}
+
 /// Replaces every `Self` in the provided type with the provided tokens (the deriving type with its
 /// generic arguments), so the type may be spelled where `Self` means something else.
 #[cfg(any(feature = "into", feature = "into_iterator", feature = "try_into"))]
